@@ -137,6 +137,10 @@ CATALOGUE = [
     m('c08-pad-short', 'C08', 'break', B, [("for i in np.arange(1, nord, dtype=np.float32):", "for i in np.arange(1, nord-1, dtype=np.float32):")], 'C08.PAD'),
     m('c08-keep-rename-yy', 'C08', 'keep', B, [("        yy = yfit.copy()\n        yy[xsort] = yfit\n", "        unsorted = yfit.copy()\n        unsorted[xsort] = yfit\n"), ("        return (yy, mask)", "        return (unsorted, mask)")]),
     # ------------------------------------------------------------------ C09
+    # pre-fix code of fix 03 (the reversed patch no longer applies after fix 42 rewrote the same line)
+    m('c06-array-mjd-offset-missing', 'C06', 'break', S, [("    else:\n        mjd = mjd.astype(np.int64) - 50000\n", "")], 'C06.PATH-OFFSET'),
+    # pre-fix code of fix 42
+    m('c06-array-mjd-offset-narrow', 'C06', 'break', S, [("        mjd = mjd.astype(np.int64) - 50000\n", "        mjd = mjd - 50000\n")], 'C06.WIDE'),
     m('c09-float-range', 'C09', 'break', B, [("for jj in range(-int(np.ceil(self.nord/2.0)), (self.nord - 1)//2 + 1):", "for jj in range(-np.ceil(self.nord/2.0), self.nord/2.0):")], 'C09.INT-SINK'),
     m('c09-status-lost', 'C09', 'break', B, [("            return (-2, yfit)", "            return yfit")], 'C09.STATUS'),
     m('c09-keep-ge', 'C09', 'keep', B, [("            ict = upper[k] - lower[k] + 1\n            if ict > 0:", "            if upper[k] >= lower[k]:")]),
